@@ -1,4 +1,5 @@
 import FuraxProofs.Props.C10
+import FuraxProofs.Props.C10Closed
 #print axioms Furax.C10.diag_diag_rule
 #print axioms Furax.C10.diag_col_rule
 #print axioms Furax.C10.row_diag_rule
@@ -10,3 +11,10 @@ import FuraxProofs.Props.C10
 #print axioms Furax.C10.transpose_form
 #print axioms Furax.C10.ctor_refuses_mismatch
 #print axioms Furax.C10.rule_needs_same_layout
+#print axioms Furax.C10.block_diagonal_matrix
+#print axioms Furax.C10.block_diagonal_matrix_in_band
+#print axioms Furax.C10.block_diagonal_matrix_off_band
+#print axioms Furax.C10.block_row_matrix
+#print axioms Furax.C10.block_column_matrix
+#print axioms Furax.C10.block_diagonal_acts_as_its_matrix
+#print axioms Furax.C10.block_row_transpose_matrix
